@@ -430,7 +430,20 @@ def gen_clock(r):
 
 
 def _make_clock_classes(world):
-    class SimDateTime(_real_datetime):
+    # The stand-ins must be indistinguishable from the stdlib classes for everything except reading the
+    # clock: isinstance / issubclass answer as for the real class and construction yields real objects
+    # (d42 code such as `isinstance(value, datetime)` must behave as in production).
+    class _AsReal(type):
+        def __instancecheck__(cls, obj):
+            return isinstance(obj, cls.__mro__[1])
+
+        def __subclasscheck__(cls, sub):
+            return issubclass(sub, cls.__mro__[1])
+
+    class SimDateTime(_real_datetime, metaclass=_AsReal):
+        def __new__(cls, *a, **kw):
+            return _real_datetime(*a, **kw)
+
         @classmethod
         def utcnow(cls):
             if sys.version_info >= (3, 12):
@@ -460,7 +473,10 @@ def _make_clock_classes(world):
         def today(cls):
             return cls.now()
 
-    class SimDate(_real_date):
+    class SimDate(_real_date, metaclass=_AsReal):
+        def __new__(cls, *a, **kw):
+            return _real_date(*a, **kw)
+
         @classmethod
         def today(cls):
             t = world.clock.read()
